@@ -78,6 +78,11 @@ def check(chk):
     chk.analysed(*m.values())
     _handler_keys(chk, repo)
     _own_scope(chk, repo)
+    # the start queue a mode parks is released and forgotten when the mode has stopped (shared with C02: a queue reference that survives
+    # the cycle is cleared again by the next stop and aborts it half way: handlers and devices of that cycle stay registered)
+    from sa.rules import c02 as _c02
+    _c02._pair2(chk, only="mpf/core/mode.py")
+    _c02._start_wait_taken_only_when_starting(chk)
 
     # ------------------------------------------------------------ TRACE-2
     CHAIN = [
@@ -730,6 +735,7 @@ def battery():
         M("returned handler key is a fresh uuid", "mpf/core/events.py", "        return EventHandlerKey(key, event)", "        return EventHandlerKey(uuid.uuid4(), event)", "KEY-7"),
         M("delayed control event armed on the machine-wide delay manager", MD, "        self.delay.add(ms=ms_delay, callback=callback, mode=self)", "        self.machine.delay.add(ms=ms_delay, callback=callback, mode=self)", "SCOPE-7"),
         M("relay player clears every context's handlers", "mpf/config_players/queue_relay_player.py", "        for queue, handler in self._get_instance_dict(context).items():\n            self.machine.events.remove_handler_by_key(handler)\n            queue.clear()", "        self.machine.events.remove_handler(self._callback)\n        for queue in self._get_instance_dict(context):\n            queue.clear()", "SCOPE-7"),
+        M("start queue released but not forgotten", "mpf/core/mode.py", "            self._mode_start_wait_queue.clear()\n            self._mode_start_wait_queue = None", "            self._mode_start_wait_queue.clear()", "PAIR-2"),
     ]
 
 
